@@ -120,6 +120,29 @@ def run_first_cluster(ctx, rep):
                 if tuple(back) != tuple(want):
                     problems.append('re-assembling the stored halves gives [%s], not the low %d bits of the number that was set' % (
                         _fmt(back), nbits))
+    # K6b: "no cluster" is decided on the whole assembled number, not on one half of it
+    from analyses import Deps, switch_source
+    dg = Deps(G)
+    none_blocks = [bi for bi in G.reachable() for s_ in G.blocks[bi]['stmts']
+                   if s_['k'] == 'assign' and s_['rv']['k'] == 'agg' and s_['rv'].get('variant') == 'None' and s_['lhs']['l'] == 0]
+    halves = {f for p_ in gp.paths if isinstance(p_['ret'], tuple) for b in p_['ret'] if isinstance(b, tuple) for f in [b[1]]
+              if f.startswith('field:')}
+    for bi in G.reachable():
+        t = G.blocks[bi]['term']
+        if t['k'] != 'switch' or not none_blocks:
+            continue
+        arms = sorted(set(G.succ(bi)))
+        reach = [set(G.reach_from([a], cut_blocks=[bi])) for a in arms]
+        hits = [bool(r & set(none_blocks)) for r in reach]
+        if any(hits) and not all(hits):
+            fields = {'field:' + tk[1] for tk in dg.of_operand(t['discr']) if tk[0] == 'field'}
+            src = switch_source(G, bi)
+            if src and src.get('kind') == 'binop':
+                fields |= {'field:' + tk[1] for o_ in (src['a'], src['b']) for tk in dg.of_operand(o_) if tk[0] == 'field'}
+            if halves and not halves <= fields and fields & halves:
+                problems.append('the getter answers "no cluster" after looking at %s only, although the number is assembled from '
+                                '%s: a first cluster whose tested half is 0 (0x10000, 0x20000, ...) reads back as none' % (
+                                    sorted(fields & halves), sorted(halves)))
     rep.oblige('K6', ENTRY + 'set_first_cluster', ok=not problems and decided >= 1, nontrivial=True,
                sample={'rule': 'first_cluster(set_first_cluster(n)) == n bit for bit (both halves on FAT32, the low half otherwise)',
                        'pairs decided': decided, **detail})
